@@ -450,19 +450,26 @@ pub fn random_runs(args: &pv_core::Args) {
         // C27 runs and every second C29 run are "tame" (no Connected without an outstanding Connect, no stray handshake
         // messages), so that long runs exist next to the ones that hit the handshake assertion early
         // per-run profile: error storms / disconnect storms in some runs
-        let err_w = if mode == "c28" { 1 } else { *rng.pick(&[1u64, 1, 12]) };
-        let disc_w = if mode == "c28" { 1 } else { *rng.pick(&[1u64, 1, 6]) };
+        let mut err_w = if mode == "c28" { 1 } else { *rng.pick(&[1u64, 1, 12]) };
+        let mut disc_w = if mode == "c28" { 1 } else { *rng.pick(&[1u64, 1, 6]) };
+        // C27: calm runs (noise 0) fill the warm / hot sets up to their limits, noisy ones ban and disconnect a lot
+        let noise = if mode == "c27" { *rng.pick(&[0u64, 0, 1, 3]) } else { 1 };
+        if mode == "c27" {
+            err_w = noise * *rng.pick(&[1u64, 4]);
+            disc_w = noise;
+        }
         let tame = mode == "c27" || (mode == "c29" && run % 2 == 1);
         let mut n = 0;
         while n < events {
             let tracked = d.tracked();
             let mut c: Vec<(u64, Step)> = vec![];
-            c.push((if tracked.len() < 3 { 16 } else { 3 }, Step::new("include", rng.range(1, npeers))));
+            let inc_w = if tracked.len() < 3 { 16 } else if mode == "c27" && (tracked.len() as u64) < npeers * 2 / 3 { 8 } else { 3 };
+            c.push((inc_w, Step::new("include", rng.range(1, npeers))));
             c.push((24, Step::new("hk", 0)));
             c.push((2, Step::new("idle", 0)));
             if !tracked.is_empty() {
                 let t = *rng.pick(&tracked);
-                let bw = if mode == "c27" { 2 } else { 1 };
+                let bw = if mode == "c27" { noise } else { 1 };
                 c.push((bw, Step::new("ban", t)));
                 c.push((bw, Step::new("demote", t)));
                 c.push((if mode == "c28" { 10 } else { 6 }, Step::new("contsync", *rng.pick(&tracked))));
@@ -475,7 +482,7 @@ pub fn random_runs(args: &pv_core::Args) {
             }
             if mode == "c27" {
                 // bans / includes of peers the behaviour may not know
-                c.push((1, Step::new("ban", rng.range(1, npeers))));
+                c.push((noise.min(1), Step::new("ban", rng.range(1, npeers))));
             }
             if !d.sync_started {
                 c.push((4, Step::new("startsync", 0)));
@@ -505,7 +512,7 @@ pub fn random_runs(args: &pv_core::Args) {
             if mode != "c28" {
                 // events no real connection would produce
                 let anyp = rng.range(1, npeers);
-                let w = if mode == "c29" { 6 } else { 2 };
+                let w = if mode == "c29" { 6 } else { noise };
                 let mut m1 = msgs::random_desc(&mut rng, npeers);
                 let mut m2 = msgs::random_desc(&mut rng, npeers);
                 while tame && (m1.proto == "handshake" || m2.proto == "handshake") {
@@ -513,7 +520,7 @@ pub fn random_runs(args: &pv_core::Args) {
                     m2 = msgs::random_desc(&mut rng, npeers);
                 }
                 c.push((w, Step::msg("recv", anyp, m1)));
-                c.push((if mode == "c29" { 3 } else { 1 }, Step::msg("sent", anyp, m2)));
+                c.push((if mode == "c29" { 3 } else { noise.min(1) }, Step::msg("sent", anyp, m2)));
                 if !tame {
                     c.push((if mode == "c29" { 2 } else { 1 }, Step::new("connected", anyp)));
                 }
